@@ -8,6 +8,7 @@ them. The SDM positions are spelled out inside each statement (`extractLsb' pos 
 as `~~~`. The transcription is tied to the real code by the byte-for-byte correspondence of tools/props/c01.py.
 -/
 import AsmjitVerif.Model.X86Backend
+import AsmjitVerif.Spec.X86Decode
 import Std.Tactic.BVDecide
 namespace AsmjitVerif.Props.C01
 open Model.X86
@@ -293,6 +294,84 @@ theorem modsib_base_index_roundtrip (c : Ctx) (pre : List Byte) (ao : Nat) (opco
   simp [hbase]
   split <;> simp_all
   split <;> simp_all
+
+
+
+/-- `EmitModSib`, [BASE + DISP] path (no index, 32/64-bit addressing): ModRM (mod, reg, rm = base[2:0]) with the SDM special cases -
+base rSP/r12 (rm = 100 means "SIB follows": SIB 00:100:base is emitted), base rBP/r13 (mod = 00 rm = 101 means disp32 / RIP: a zero
+disp8 is emitted instead), forced SIB for AMX - and the displacement in exactly one of the forms none / disp8 (= `cdisp8`) / disp32. -/
+theorem modsib_base_roundtrip (c : Ctx) (pre : List Byte) (ao : Nat) (opcode options opReg rbReg rxReg rmInfo : BitVec 32) (m : Mem)
+    (imm : BitVec 64) (n : Nat)
+    (hni : rmInfo &&& (kX86MemInfo_Index ||| kX86MemInfo_67H_X86) = 0#32) (hbase : rmInfo &&& kX86MemInfo_BaseGp ≠ 0#32) :
+    emitModSib c pre ao opcode options opReg rbReg rxReg rmInfo m imm n false =
+      .ok (pre ++
+        (let rb := rbReg &&& 7#32
+         let mod := encodeMod 0#32 opReg rb
+         if rb == 4#32 || c.tsib then
+           let mod := (mod &&& 0xF8#32) ||| 0x04#32
+           let sib : Byte := (encodeSib 0#32 4#32 rb).truncate 8
+           if rb != 5#32 && m.offLo32 == 0#32 then [mod.truncate 8, sib]
+           else match cdisp8 m.offLo32 (cdShiftOf opcode) with
+             | some cd => [(mod + 0x40#32).truncate 8, sib, cd.truncate 8]
+             | none => [(mod + 0x80#32).truncate 8, sib] ++ le32 m.offLo32
+         else if rb != 5#32 && m.offLo32 == 0#32 then [mod.truncate 8]
+         else match cdisp8 m.offLo32 (cdShiftOf opcode) with
+           | some cd => [(mod + 0x40#32).truncate 8, cd.truncate 8]
+           | none => [(mod + 0x80#32).truncate 8] ++ le32 m.offLo32)
+        ++ emitImmediate imm n) := by
+  unfold emitModSib
+  simp only [Bool.not_false, Bool.true_and, hni, beq_self_eq_true, ↓reduceIte, bne_iff_ne, ne_eq, hbase, not_false_eq_true]
+  split
+  · split
+    · simp
+    · split <;> simp_all
+  · split
+    · simp
+    · split <;> simp_all
+
+
+
+/-! ## AVX-512 option block of `EmitVexEvexR`: {z}, {er}, {sae} (SDM 2.7.3 - 2.7.5: z = P2[7], b = P2[4], rounding control in L'L) -/
+
+/-- With {er} the prefix word carries b = 1 and the rounding mode in the L'L bits (whatever vector length the opcode had);
+with {sae} b = 1 and L'L = 00; {z} sets bit 23; nothing else of `x` changes; and the block fails exactly when the
+instruction lacks the capability (or a non-512-bit vector instruction with broadcast support asks for it). -/
+theorem evex_r_options_roundtrip (c : Ctx) (x options x' : BitVec 32)
+    (hx : x &&& 0x00900000#32 = 0#32)
+    (h : vexEvexROptions c x options = .ok x') :
+    x' &&& 0xFF0FFFFF#32 = x &&& 0xFF0FFFFF#32 ∧
+    ((options &&& (oER ||| oSAE)) = 0#32 → x'.extractLsb' 21 2 = x.extractLsb' 21 2) ∧
+    (x'.extractLsb' 23 1 = options.extractLsb' 23 1) ∧
+    (x'.extractLsb' 20 1 = (if (options &&& (oER ||| oSAE)) != 0#32 then 1#1 else 0#1)) ∧
+    ((options &&& oER) != 0#32 → x'.extractLsb' 21 2 = options.extractLsb' 21 2) ∧
+    ((options &&& oER) = 0#32 → (options &&& oSAE) != 0#32 → x'.extractLsb' 21 2 = 0#2) := by
+  unfold vexEvexROptions at h
+  dsimp only at h
+  split at h
+  · split at h
+    · split at h
+      · contradiction
+      · split at h
+        · split at h
+          · contradiction
+          · injection h with h; subst h; simp only [oZMask, oER, oSAE] at *; refine ⟨?_, ?_, ?_, ?_, ?_, ?_⟩ <;> (try intro _) <;> (try intro _) <;> bv_decide
+        · split at h
+          · contradiction
+          · injection h with h; subst h; simp only [oZMask, oER, oSAE] at *; refine ⟨?_, ?_, ?_, ?_, ?_, ?_⟩ <;> (try intro _) <;> (try intro _) <;> bv_decide
+    · injection h with h; subst h; simp only [oZMask, oER, oSAE] at *; refine ⟨?_, ?_, ?_, ?_, ?_, ?_⟩ <;> (try intro _) <;> (try intro _) <;> bv_decide
+  · injection h with h; subst h; simp only [oZMask, oER, oSAE] at *; refine ⟨?_, ?_, ?_, ?_, ?_, ?_⟩ <;> (try intro _) <;> (try intro _) <;> bv_decide
+
+/-! ## 16-bit addressing tables against SDM table 2-1 (the spec's `addr16Regs`) -/
+
+/-- every (base, index) pair / single base the 16-bit tables accept yields the r/m value whose SDM meaning is that pair / base,
+and every other combination is refused (0xFF) -/
+theorem mod16_tables_correct :
+    (∀ b i : Fin 8, let m := mod16BaseIndex (BitVec.ofNat 32 b.val) (BitVec.ofNat 32 i.val)
+      (m = 0xFF#32 ∨ (m < 4#32 ∧ (Spec.X86.addr16Regs m.toNat = (some b.val, some i.val) ∨ Spec.X86.addr16Regs m.toNat = (some i.val, some b.val)))) ∧
+      ((m = 0xFF#32) ↔ ¬ ((b.val = 3 ∨ b.val = 5) ∧ (i.val = 6 ∨ i.val = 7) ∨ (i.val = 3 ∨ i.val = 5) ∧ (b.val = 6 ∨ b.val = 7)))) ∧
+    (∀ b : Fin 8, let m := mod16Base (BitVec.ofNat 32 b.val)
+      (m = 0xFF#32 ∨ (Spec.X86.addr16Regs m.toNat = (some b.val, none))) ∧ ((m = 0xFF#32) ↔ ¬ (b.val = 3 ∨ b.val = 5 ∨ b.val = 6 ∨ b.val = 7))) := by
+  decide
 
 
 end AsmjitVerif.Props.C01
